@@ -88,7 +88,7 @@ pub fn run(ctx: &mut Ctx) {
         }
         let s = inputs::small_string(i, small_len);
         for m in masks {
-            eval(ctx, &EncCase { input: s.clone(), list: "default".into(), mask: *m, macros: true, fnc1: false, eci: None, order: 0, prelude: 0, skipdef: false }, "small_scope_exhaustive");
+            eval(ctx, &EncCase { input: s.clone(), list: "default".into(), mask: *m, macros: true, fnc1: false, eci: None, order: 0, prelude: 0, skipdef: false, entry: 0 }, "small_scope_exhaustive");
         }
     }
     // three-part family around the Base256 length-field edge (deterministic)
@@ -100,7 +100,7 @@ pub fn run(ctx: &mut Ctx) {
             let input = inputs::tail_family_case(i);
             let list = match i % 5 { 0 => "all", _ => "default" };
             let mask = match i % 7 { 0 => 62u8, 1 => 17, _ => 63 };
-            eval(ctx, &EncCase { input, list: list.into(), mask, macros: false, fnc1: false, eci: None, order: 0, prelude: 0, skipdef: false }, "tail_family");
+            eval(ctx, &EncCase { input, list: list.into(), mask, macros: false, fnc1: false, eci: None, order: 0, prelude: 0, skipdef: false, entry: 0 }, "tail_family");
             i += step * ctx.nshards;
         }
     }
@@ -109,7 +109,7 @@ pub fn run(ctx: &mut Ctx) {
     while i < inputs::family_count() {
         let input = inputs::family_case(i);
         let list = if i % 4 == 1 { "all" } else { "default" };
-        eval(ctx, &EncCase { input, list: list.into(), mask: 63, macros: i % 2 == 0, fnc1: i % 16 == 5, eci: None, order: 0, prelude: 0, skipdef: false }, "three_part_family");
+        eval(ctx, &EncCase { input, list: list.into(), mask: 63, macros: i % 2 == 0, fnc1: i % 16 == 5, eci: None, order: 0, prelude: 0, skipdef: false, entry: 0 }, "three_part_family");
         i += fam_step * ctx.nshards;
     }
     let n = ctx.budget(300_000, 30_000_000);
